@@ -11,10 +11,11 @@
    advances by exactly that command, and nothing is left unread; the same for cas (c05_e2e_cas: True / False / None as
    the item was stored, changed by someone else, or absent) and for the multi-command operations set_many and delete_many
    (c05_e2e_set_many, c05_e2e_delete_many: the server executes exactly the intended commands in order, the client reads
-   one reply line per command).  Retrievals end to end are in Properties/C04.v.  Still checked rather than proved: gat/gats
-   (retime + retrieve), calls that have to (re)connect first, and the Pooled/Hash stacks. *)
+   one reply line per command), and for gat / gats (c05_e2e_gat, c05_e2e_gats: the item comes back as for get / gets and
+   the server re-times it, c05_gat_retimes).  Retrievals end to end are in Properties/C04.v; calls that (re)connect first are
+   covered at the exchange level by c01_ready_*.  Checked rather than proved: the Pooled/Hash stacks (C16 relates them to Client). *)
 From Coq Require Import ZArith List Bool.
-From PM Require Import Lib.Py Model.Lits Spec.Proto Spec.Server Model.World Model.Client Proofs.Hoare Proofs.C02Proof Proofs.C05Proof Proofs.Quiet Proofs.E2E Proofs.E2EMany.
+From PM Require Import Lib.Py Model.Lits Spec.Proto Spec.Server Model.World Model.Client Proofs.Hoare Proofs.C02Proof Proofs.C05Proof Proofs.Quiet Proofs.E2E Proofs.E2EMany Proofs.E2EFetch Proofs.E2EGat.
 Import ListNotations.
 Open Scope Z_scope.
 
@@ -125,6 +126,33 @@ Theorem c05_e2e_delete_many : forall c, (forall e, exn_isa e Exception_ = true -
         (fun r w => r = DBool true /\ St sstate sid (fst (run_cmds s (map (fun k => CDelete k nr) ks))) [] w) (fun _ _ => False).
 Proof. exact E2EMany.delete_many_e2e. Qed.
 Print Assumptions c05_e2e_delete_many.
+
+(* gat / gats: the value (and cas token) as for get / gets; on the server the item's expiry is re-timed *)
+Theorem c05_e2e_gat : forall c, c_ignore_exc c = false -> h_fetch c = BaseException ->
+  forall sid s key expire default k z, check_key c (c_prefix c) key = Ok k -> swf s ->
+  int_value expire = Some z -> - 2 ^ 63 <= z < 2 ^ 63 ->
+  let s' := fst (exec s (CGat false z [k])) in
+  hoare (St sstate sid s []) (run_op sstate serve c (OpGat key expire default))
+        (fun v w => match live s k with None => v = default | Some it => deser c it = Ok v end /\ St sstate sid s' [] w)
+        (fun e w => (exists it, live s k = Some it /\ deser c it = Raise e) /\ w_sock w = None).
+Proof. exact E2EGat.gat_e2e. Qed.
+Print Assumptions c05_e2e_gat.
+Theorem c05_e2e_gats : forall c, c_ignore_exc c = false -> h_fetch c = BaseException ->
+  forall sid s key expire default cas_default k z, check_key c (c_prefix c) key = Ok k -> swf s ->
+  int_value expire = Some z -> - 2 ^ 63 <= z < 2 ^ 63 ->
+  let s' := fst (exec s (CGat true z [k])) in
+  hoare (St sstate sid s []) (run_op sstate serve c (OpGats key expire default cas_default))
+        (fun v w => match live s k with
+                    | None => v = DTuple [default; cas_default]
+                    | Some it => exists x, deser c it = Ok x /\ v = DTuple [x; DBytes (str_of_Z (i_cas it))] end /\ St sstate sid s' [] w)
+        (fun e w => (exists it, live s k = Some it /\ deser c it = Raise e) /\ w_sock w = None).
+Proof. exact E2EGat.gats_e2e. Qed.
+Theorem c05_gat_retimes : forall s (g : bool) z k it, live s k = Some it ->
+  let s' := fst (exec s (CGat g z [k])) in
+  match abs_exp (s_now s) z with
+  | Some x => lookup (s_items s') k = Some {| i_flags := i_flags it; i_exp := x; i_data := i_data it; i_cas := i_cas it |}
+  | None => lookup (s_items s') k = None end.
+Proof. exact E2EGat.gat_retimes. Qed.
 
 (* non-vacuity: a short history with a cas race, a counter and an expiry *)
 Example c05_ex :
